@@ -1,4 +1,4 @@
-use std::{cell::RefCell, rc::Rc};
+use std::{cell::RefCell, collections::HashMap, rc::Rc};
 
 use crate::{
     intern::{StrInterner, StrRef},
@@ -59,7 +59,7 @@ impl Expr {
         symtab: &Symtab,
         str_interner: &Rc<RefCell<StrInterner>>,
     ) -> Option<i32> {
-        self.evaluate_inner(symtab, str_interner, &mut Vec::new())
+        self.evaluate_inner(symtab, str_interner, &mut Vec::new(), &mut HashMap::new())
     }
 
     fn evaluate_inner(
@@ -67,6 +67,7 @@ impl Expr {
         symtab: &Symtab,
         str_interner: &Rc<RefCell<StrInterner>>,
         visiting: &mut Vec<StrRef>,
+        solved: &mut HashMap<StrRef, Option<i32>>,
     ) -> Option<i32> {
         let mut stack = Vec::new();
         for &node in &self.nodes {
@@ -79,9 +80,16 @@ impl Expr {
                         if visiting.contains(&strref) {
                             return None;
                         }
-                        visiting.push(strref);
-                        let value = expr.evaluate_inner(symtab, str_interner, visiting);
-                        visiting.pop();
+                        // a symbol mentioned more than once is solved once per evaluation
+                        let value = if let Some(value) = solved.get(&strref) {
+                            *value
+                        } else {
+                            visiting.push(strref);
+                            let value = expr.evaluate_inner(symtab, str_interner, visiting, solved);
+                            visiting.pop();
+                            solved.insert(strref, value);
+                            value
+                        };
                         stack.push(value?);
                     }
                 },
